@@ -123,6 +123,10 @@ class Facts:
                 raise AnalysisBroken("instantiation driver `%s` does not compile against the current tree (a member that the tests never instantiate may not compile): %s" % (name, failed[name]))
             with open(os.path.join(self.dir, name + ".json")) as f:
                 data = json.load(f)
+            rm = self.rename_map()
+            if rm is not None:
+                from vlib import renames
+                renames.apply(data, rm)
             if getattr(self, "normalize", True) and not os.environ.get("VERIF_NO_NORMALIZE"):
                 from vlib import normalize
                 sys.path.insert(0, os.path.join(VERIF, "rules")) if os.path.join(VERIF, "rules") not in sys.path else None
@@ -137,6 +141,46 @@ class Facts:
                     normalize.LIGHT[0] = False
             self._loaded[name] = data
         return self._loaded[name]
+
+    def rename_map(self):
+        """R0 (vlib/renames.py): internal names of the current tree that are renamed versions of reviewed names; computed once per
+        exported tree and cached next to the facts"""
+        if os.environ.get("VERIF_NO_RENAMES"):
+            return None
+        if getattr(self, "_rmap", False) is not False:
+            return self._rmap
+        from vlib import renames
+        rev = renames.reviewed()
+        self._rmap = None
+        if rev is not None:
+            cp = os.path.join(self.dir, "_renames.json")
+            sig = str(os.path.getmtime(renames.SPEC)) + str(os.path.getmtime(renames.__file__))
+            m = None
+            if os.path.exists(cp):
+                try:
+                    c = json.load(open(cp))
+                    if c.get("sig") == sig:
+                        m = c["map"]
+                except Exception:
+                    m = None
+            if m is None:
+                datas = []
+                for d in self.drivers:
+                    fp = os.path.join(self.dir, d + ".json")
+                    if os.path.exists(fp):
+                        with open(fp) as f:
+                            datas.append(json.load(f))
+                m = renames.compute_map(rev, renames.snapshot(datas))
+                try:
+                    with open(cp + ".tmp%d" % os.getpid(), "w") as f:
+                        json.dump({"sig": sig, "map": m}, f)
+                    os.replace(cp + ".tmp%d" % os.getpid(), cp)
+                except Exception:
+                    pass
+            self._rmap = None if renames.is_empty(m) else m
+            if self._rmap is not None:
+                RENAMED[0] = renames.describe(self._rmap)
+        return self._rmap
 
     def raw(self):
         """the same facts without the normalisation pass (for the path-complete abstract interpreters, which do not depend on
@@ -220,6 +264,9 @@ def load_known():
         return json.load(f)
 
 
+RENAMED = [[]]
+
+
 def finish(pid, tier, level, rules_run, obligations, t0, explanation, assumptions, extra_cov=None, notes=None, extra_broken=None):
     """Print the report, compare with known findings, write evidence, exit by contract."""
     known = [k for k in load_known().get("known", []) if k["property"] == pid]
@@ -233,6 +280,8 @@ def finish(pid, tier, level, rules_run, obligations, t0, explanation, assumption
         (listed if (o["rule"], o["key"]) in known_keys else unlisted).append(o)
 
     print("property %s tier=%s tree=%s" % (pid, tier, REPO))
+    if RENAMED[0]:
+        print("  names restored (R0, vlib/renames.py; reports below use the reviewed names): %s" % "; ".join(RENAMED[0][:12]) + (" ... (%d in all)" % len(RENAMED[0]) if len(RENAMED[0]) > 12 else ""))
     for r in rules_run:
         print("  rule %-28s instances=%-4d min=%-4d %s" % (r["rule"], r["instances"], r["min"], r.get("text", "")))
     print("  obligations: %d discharged, %d violated (%d listed as known findings), %d unrecognised, %d informational"
@@ -293,6 +342,7 @@ def finish(pid, tier, level, rules_run, obligations, t0, explanation, assumption
         "tree_hash": FACTS_HASH[0],
         "known_findings_suppressed": sorted({"%s|%s" % (o["rule"], o["key"]) for o in listed}),
         "analysis_broken": broken,
+        "names_restored": list(RENAMED[0]),
     }
     if level == "proof":
         cov["checker_cmd"] = "./check %s --tier %s" % (pid, tier)
